@@ -48,3 +48,68 @@ pub proof fn mark_cycle(rem_nonempty: bool)
         cause_cycle(),
 {
 }
+
+// ---- C02: a second pass is started only when every dependency the file reported has completed
+/// K: every reported dependency that has not finished yet is recorded as a wait edge; waits only come from reports
+pub open spec fn waits_cover_reports(dm: &DepManager, reported: Map<AbsPath, Set<AbsPath>>) -> bool {
+    &&& forall|a: AbsPath, b: AbsPath| #![trigger reported[a].contains(b)]
+            reported.contains_key(a) && reported[a].contains(b) && !dm.fin().contains(b) ==> dm.edge(a, b)
+    &&& forall|a: AbsPath, b: AbsPath| #[trigger] dm.edge(a, b) ==> reported.contains_key(a)
+}
+
+/// the file reported its dependencies and all of them have completed their final pass
+pub open spec fn deps_all_finished(dm: &DepManager, reported: Map<AbsPath, Set<AbsPath>>, x: AbsPath) -> bool {
+    reported.contains_key(x) && forall|b: AbsPath| reported[x].contains(b) ==> dm.fin().contains(b)
+}
+
+pub proof fn lemma_report(dm0: &DepManager, dm1: &DepManager, rep: Map<AbsPath, Set<AbsPath>>, x: AbsPath, deps: Seq<AbsPath>, r: bool)
+    requires
+        waits_cover_reports(dm0, rep),
+        dm1.fin() == dm0.fin(),
+        forall|a: AbsPath, b: AbsPath| dm1.edge(a, b) <==> (dm0.edge(a, b) || (a == x && deps.contains(b) && !dm0.fin().contains(b))),
+        r <==> (exists|i: int| 0 <= i < deps.len() && !dm0.fin().contains(#[trigger] deps[i])),
+    ensures
+        waits_cover_reports(dm1, rep.insert(x, deps.to_set())),
+        !r ==> deps_all_finished(dm1, rep.insert(x, deps.to_set()), x),
+{
+    let rep1 = rep.insert(x, deps.to_set());
+    assert forall|a: AbsPath, b: AbsPath| rep1.contains_key(a) && #[trigger] rep1[a].contains(b) && !dm1.fin().contains(b) implies dm1.edge(a, b) by {
+        if a == x {
+            assert(deps.to_set().contains(b));
+            assert(deps.contains(b));
+        } else {
+            assert(rep[a].contains(b));
+        }
+    }
+    if !r {
+        assert forall|b: AbsPath| rep1[x].contains(b) implies dm1.fin().contains(b) by {
+            assert(deps.contains(b));
+            let i = choose|i: int| 0 <= i < deps.len() && deps[i] == b;
+            assert(dm0.fin().contains(deps[i]));
+        }
+    }
+}
+
+pub proof fn lemma_finish(dm0: &DepManager, dm1: &DepManager, rep: Map<AbsPath, Set<AbsPath>>, f: AbsPath, released: Set<AbsPath>)
+    requires
+        waits_cover_reports(dm0, rep),
+        dm1.fin() == dm0.fin().insert(f),
+        forall|a: AbsPath, b: AbsPath| dm1.edge(a, b) <==> (dm0.edge(a, b) && b != f),
+        forall|a: AbsPath| released.contains(a) <==> (dm0.edge(a, f) && dm0.all_deps_are(a, f)),
+    ensures
+        waits_cover_reports(dm1, rep),
+        forall|x: AbsPath| released.contains(x) ==> deps_all_finished(dm1, rep, x),
+{
+    assert forall|a: AbsPath, b: AbsPath| rep.contains_key(a) && #[trigger] rep[a].contains(b) && !dm1.fin().contains(b) implies dm1.edge(a, b) by {
+        assert(dm0.edge(a, b));
+    }
+    assert forall|x: AbsPath| released.contains(x) implies deps_all_finished(dm1, rep, x) by {
+        assert(dm0.edge(x, f));
+        assert forall|b: AbsPath| rep[x].contains(b) implies dm1.fin().contains(b) by {
+            if !dm1.fin().contains(b) {
+                assert(dm0.edge(x, b));
+                assert(b == f);
+            }
+        }
+    }
+}
